@@ -35,16 +35,40 @@ class BusStub:
     def send_periodic(self, msg, period):
         rt.emit("bus.send_periodic", msg.arbitration_id, rt.snapshot(msg.data), msg.is_remote_frame,
                 msg.is_extended_id, period)
-        return TaskStub(msg, period)
+        t = TaskStub(msg, period)
+        rt.emit("task.start", t)
+        return t
+
+
+class BusStubModify(BusStub):
+    """a bus whose cyclic tasks can modify their data in place"""
+
+    def send_periodic(self, msg, period):
+        rt.emit("bus.send_periodic", msg.arbitration_id, rt.snapshot(msg.data), msg.is_remote_frame,
+                msg.is_extended_id, period)
+        t = TaskStubModify(msg, period)
+        rt.emit("task.start", t)
+        return t
 
 
 class TaskStub:
+    """python-can cyclic task: transmits (id, payload snapshot taken at creation, period) until stopped"""
+
     def __init__(self, msg, period):
         self.msg = msg
         self.period = period
+        self.arbitration_id = msg.arbitration_id
+        self.payload = rt.snapshot(msg.data)
+        self.remote = msg.is_remote_frame
 
     def stop(self):
         rt.emit("task.stop", self)
+
+
+class TaskStubModify(TaskStub):
+    def modify_data(self, msg):
+        self.payload = rt.snapshot(msg.data)
+        rt.emit("task.modify", self)
 
 
 class ScannerStub:
@@ -97,3 +121,14 @@ class HandlerStub:
 
     def on_command(self, can_id, data, timestamp):
         rt.emit("on_command", self)
+
+
+class BusStubShutdown(BusStub):
+    def shutdown(self):
+        rt.emit("bus.shutdown")
+
+
+class NodeWithPdo:
+    def __init__(self, node_id, pdo):
+        self.id = node_id
+        self.pdo = pdo
